@@ -27,10 +27,19 @@ class Rewriter(ast.NodeTransformer):
 
 def instrument(cls, name, overrides):
     raw = cls.__dict__[name]
-    fn = raw.__func__ if isinstance(raw,(staticmethod,classmethod)) else raw
+    fn = raw.__func__ if isinstance(raw,(staticmethod,classmethod)) else (raw.fget if isinstance(raw,property) else raw)
     src = textwrap.dedent(inspect.getsource(fn))
     tree = Rewriter().visit(ast.parse(src)); ast.fix_missing_locations(tree)
     g = dict(fn.__globals__); g.update(overrides); g["__vf_astype"] = vf_astype
+    # wrap in a factory so that zero-argument super() finds its __class__ cell
+    fdef = tree.body[0]
+    factory = ast.FunctionDef(name="__vf_factory", args=ast.arguments(posonlyargs=[], args=[ast.arg("__class__")], kwonlyargs=[], kw_defaults=[], defaults=[]),
+                              body=[fdef, ast.Return(ast.Name(fdef.name, ast.Load()))], decorator_list=[], type_params=[])
+    fdef.decorator_list = []
+    mod = ast.Module(body=[factory], type_ignores=[]); ast.fix_missing_locations(mod)
     ns = {}
-    exec(compile(tree, inspect.getsourcefile(fn), "exec"), g, ns)
-    setattr(cls, name, staticmethod(ns[name]) if isinstance(raw,staticmethod) else ns[name])
+    exec(compile(mod, inspect.getsourcefile(fn), "exec"), g, ns)
+    new = ns["__vf_factory"](cls)
+    if isinstance(raw, staticmethod): new = staticmethod(new)
+    elif isinstance(raw, property): new = property(new)
+    setattr(cls, name, new)
